@@ -30,6 +30,35 @@
 (* that arrive meanwhile are HELD; Resolve(c, ok, ..) applies the          *)
 (* announcement and, per direction / node, the NEWEST held message -- the  *)
 (* result must be what a synchronous lookup gives for the same messages.   *)
+(*                                                                         *)
+(* The memory of removals (remC, remN).  "Channels reported permanently    *)
+(* failed are removed ... together with nodes left without channels" is    *)
+(* claimed for all delivery orders and duplications and all interleavings  *)
+(* with network updates from payment failures.  A report that removed a    *)
+(* channel, or a node with all its channels, therefore has to hold against *)
+(* the gossip that is still in flight: a duplicate of the announcement     *)
+(* delivered before the report, or -- for a node -- the announcement of a  *)
+(* channel of that node that arrives after the report instead of before it.*)
+(* Were such a message applied, the graph would depend on where the        *)
+(* duplicate / the late announcement falls relative to the report, against *)
+(* "in any order ..., with any duplication, yields the same graph".  Hence *)
+(* while the report is remembered no gossip channel_announcement naming    *)
+(* the failed channel, or the failed node IN EITHER SLOT, is applied --    *)
+(* through whatever entry point (signed, unsigned, synchronous, completing *)
+(* an asynchronous lookup); updates and node announcements for them then   *)
+(* fall under "unknown channel" / node without channels.                   *)
+(* How long a report is remembered the text does not say.  The library     *)
+(* documents: until a pruning call whose clock is a week past the report,  *)
+(* and not across serialization (the memory is not part of the graph that  *)
+(* "survives serialization").  The spec demands refusal only while the     *)
+(* report is CERTAINLY remembered (remC / remN: no reload, no pruning call *)
+(* with a clock >= one week after the start of the run since the report)   *)
+(* and leaves the outcome open afterwards (tombC / tombN, which also cover *)
+(* channels removed by pruning, about whose re-announcement the text is    *)
+(* silent).  A report about something the graph does not hold removes      *)
+(* nothing and is not remembered.  A rapid-gossip-sync snapshot is applied *)
+(* on top without any verification requested: what it (re-)adds is added,  *)
+(* and the memory of the items it names is void from then on.              *)
 (***************************************************************************)
 EXTENDS Integers, Sequences, FiniteSets, TLC
 
@@ -41,12 +70,14 @@ VARIABLES
   caps,       \* scid -> capacity in sats reported by the UTXO source
   tombC,      \* channels removed at some point of the run (over-approximates the tombstones)
   tombN,      \* nodes reported failed at some point of the run
+  remC,       \* channels removed by a permanent-failure report that is certainly still remembered
+  remN,       \* nodes     -- " --
   delivered,  \* all messages handed to the graph so far (incl. unsigned ones from snapshots)
   eff,        \* valid messages delivered while what they refer to was present
   pure,       \* no removal / replacement / snapshot has changed the graph so far
   pend        \* scid -> [ca |-> pending announcement, held |-> messages held for it]
 
-avars == <<G, Gprev, lookup, amode, caps, tombC, tombN, delivered, eff, pure, pend>>
+avars == <<G, Gprev, lookup, amode, caps, tombC, tombN, remC, remN, delivered, eff, pure, pend>>
 
 Msg == [k |-> "", c |-> 0, n1 |-> 0, n2 |-> 0, s1 |-> 0, s2 |-> 0, bs |-> 0, chain |-> TRUE,
         n |-> 0, d |-> 0, ts |-> 0, s |-> 0, en |-> FALSE, cltv |-> 0, hmin |-> 0, hmax |-> 0,
@@ -92,12 +123,15 @@ Pending == DOMAIN pend
 CASigned(m) == (m.s1 = m.n1 /\ m.s2 = m.n2 /\ m.bs = 1) \/ (m.s1 = -2 /\ m.s2 = -2)
 CAValid(m) == m.chain /\ CASigned(m) /\ m.n1 < m.n2
 Tombed(m) == m.c \in tombC \/ m.n1 \in tombN \/ m.n2 \in tombN
+\* names a channel / a node (either slot) whose permanent-failure report is certainly remembered
+Remembered(m) == m.c \in remC \/ m.n1 \in remN \/ m.n2 \in remN
 SamePairG(g, m) == g.ch[m.c].n1 = m.n1 /\ g.ch[m.c].n2 = m.n2
 SamePair(m) == SamePairG(G, m)
 
 \* outcomes when the verdict of the UTXO source is at hand (no source / synchronous / at Resolve)
 CAAllowedG(g, m) ==
   IF ~CAValid(m) THEN {"none"}
+  ELSE IF Remembered(m) THEN {"none"}      \* reported permanently failed: stays out
   ELSE IF m.c \notin Chs(g) THEN (IF Tombed(m) THEN {"none", "add"} ELSE {"add"})
   ELSE IF SamePairG(g, m) /\ (g.ch[m.c].cap >= 0 \/ ~lookup) THEN {"none"}   \* duplicate
   ELSE {"none", "replace"}    \* conflicting announcement / re-validation: not prescribed
@@ -105,6 +139,7 @@ CAAllowedG(g, m) ==
 CAAllowed(m) ==
   IF amode /\ lookup /\ CAValid(m) /\ m.c \notin Chs(G)
   THEN (IF m.c \in Pending THEN {"none"}              \* already being checked
+        ELSE IF Remembered(m) THEN {"none"}
         ELSE IF Tombed(m) THEN {"none", "pending"} ELSE {"pending"})
   ELSE CAAllowedG(G, m)
 
@@ -127,7 +162,7 @@ DeliverCA(m, o) ==
   /\ pend' = IF o = "pending" THEN [x \in Pending \cup {m.c} |->
                                       IF x = m.c THEN [ca |-> m, held |-> {}] ELSE pend[x]]
              ELSE pend
-  /\ UNCHANGED <<lookup, amode, caps, tombC, tombN>>
+  /\ UNCHANGED <<lookup, amode, caps, tombC, tombN, remC, remN>>
 
 (* channel_update *)
 CURejectG(g, m) ==
@@ -153,7 +188,7 @@ DeliverCU(m, o) ==
   /\ delivered' = delivered \cup {m}
   /\ eff' = IF ~CUReject(m) THEN eff \cup {m} ELSE eff
   /\ pend' = IF m.chain /\ m.c \notin Chs(G) /\ m.c \in Pending THEN Hold({m.c}, m) ELSE pend
-  /\ UNCHANGED <<lookup, amode, caps, tombC, tombN, pure>>
+  /\ UNCHANGED <<lookup, amode, caps, tombC, tombN, remC, remN, pure>>
 
 (* node_announcement *)
 NAReject(m) == m.s \notin {m.n, -2}
@@ -173,7 +208,7 @@ DeliverNA(m, o) ==
   /\ eff' = IF ~NAReject(m) /\ m.n \in Nds(G) THEN eff \cup {m} ELSE eff
   /\ pend' = IF ~NAReject(m) /\ m.n \notin Nds(G)
              THEN Hold({x \in Pending : m.n \in {pend[x].ca.n1, pend[x].ca.n2}}, m) ELSE pend
-  /\ UNCHANGED <<lookup, amode, caps, tombC, tombN, pure>>
+  /\ UNCHANGED <<lookup, amode, caps, tombC, tombN, remC, remN, pure>>
 
 Allowed(m) == IF m.k = "ca" THEN CAAllowed(m) ELSE IF m.k = "cu" THEN CUAllowed(m) ELSE NAAllowed(m)
 MustErr(m) == IF m.k = "ca" THEN CAMustErr(m) ELSE IF m.k = "cu" THEN CUMustErr(m) ELSE NAMustErr(m)
@@ -215,7 +250,13 @@ Resolve(c, ok, o, pick) ==
                       THEN eff \cup {ca} \cup {m \in pend[c].held : m.k = "na" \/ ~CURejectG(g1, m)}
                       ELSE eff
             /\ pure' = (pure /\ o = "add" /\ clean)
-            /\ pend' = Restrict(pend, Pending \ {c})
+            \* (as below) when the announcement ends up not applied, a held node announcement whose
+            \* node is still unknown may move on to the other pending lookups that involve this node
+            /\ \E mig \in SUBSET (IF o = "none"
+                                   THEN {pick[i] : i \in {j \in 3..4 : pick[j].k = "na" /\ pick[j].n \notin Nds(G)}}
+                                   ELSE {}) :
+                 pend' = [x \in Pending \ {c} |->
+                            [pend[x] EXCEPT !.held = @ \cup {m \in mig : m.n \in {pend[x].ca.n1, pend[x].ca.n2}}]]
        \* the UTXO does not exist: the announcement is dropped; held messages that refer to
        \* something the graph knows from elsewhere may still be applied (not prescribed)
        ELSE /\ o = "none"
@@ -227,7 +268,7 @@ Resolve(c, ok, o, pick) ==
             /\ \E mig \in SUBSET {pick[i] : i \in {j \in 3..4 : pick[j].k = "na" /\ pick[j].n \notin Nds(G)}} :
                  pend' = [x \in Pending \ {c} |->
                             [pend[x] EXCEPT !.held = @ \cup {m \in mig : m.n \in {pend[x].ca.n1, pend[x].ca.n2}}]]
-    /\ UNCHANGED <<lookup, amode, caps, tombC, tombN, delivered>>
+    /\ UNCHANGED <<lookup, amode, caps, tombC, tombN, remC, remN, delivered>>
 
 -----------------------------------------------------------------------------
 (* removals *)
@@ -235,20 +276,27 @@ FailChan(c) ==
   /\ G' = RemoveChans(G, {c})
   /\ Gprev' = G
   /\ tombC' = IF c \in Chs(G) THEN tombC \cup {c} ELSE tombC
+  /\ remC' = IF c \in Chs(G) THEN remC \cup {c} ELSE remC
   /\ pure' = (pure /\ c \notin Chs(G))
-  /\ UNCHANGED <<lookup, amode, caps, tombN, delivered, eff, pend>>
+  /\ UNCHANGED <<lookup, amode, caps, tombN, remN, delivered, eff, pend>>
 
 FailNode(n) ==
   /\ G' = RemoveChans(G, ChansOf(G, n))
   /\ Gprev' = G
   /\ tombC' = tombC \cup ChansOf(G, n)
   /\ tombN' = IF n \in Nds(G) THEN tombN \cup {n} ELSE tombN
+  /\ remC' = remC \cup ChansOf(G, n)
+  /\ remN' = IF n \in Nds(G) THEN remN \cup {n} ELSE remN
   /\ pure' = (pure /\ n \notin Nds(G))
   /\ UNCHANGED <<lookup, amode, caps, delivered, eff, pend>>
 
 (* Pruning with the clock at (start of run + two weeks + t): an update with timestamp offset
-   below t is stale.  An announcement received during the run counts as old once t >= Grace. *)
+   below t is stale.  An announcement received during the run counts as old once t >= Grace.
+   Failure reports are made during the run, i.e. at or after its start: a pruning call whose
+   clock is less than a week after the start of the run certainly forgets none of them.     *)
 Grace == 50
+Week == 604800
+MayForget(t) == 2 * Week + t >= Week
 StaleDir(dir, t) == dir.has /\ dir.ts < t
 Dropped(g, t) ==
   [g EXCEPT !.ch = [c \in Chs(g) |->
@@ -269,13 +317,16 @@ Prune(t, R) ==
   /\ PruneFrom(G, t, R)
   /\ Gprev' = G
   /\ pure' = (pure /\ G' = G)
+  /\ remC' = IF MayForget(t) THEN {} ELSE remC
+  /\ remN' = IF MayForget(t) THEN {} ELSE remN
   /\ UNCHANGED <<lookup, amode, caps, tombN, delivered, eff, pend>>
 
-\* pending lookups are not persisted
+\* pending lookups are not persisted, nor is the memory of removals
 Reload ==
   /\ G' = G
   /\ Gprev' = G
   /\ pend' = <<>>
+  /\ remC' = {} /\ remN' = {}
   /\ UNCHANGED <<lookup, amode, caps, tombC, tombN, delivered, eff, pure>>
 
 -----------------------------------------------------------------------------
@@ -323,6 +374,9 @@ Rgs(ts, anns, nmods, upds, prune, t, R) ==
                             \cup {SynthNA(G, nmods[i], ts) : i \in DOMAIN nmods}
                             \cup {SynthCU(upds[i], ts) : i \in DOMAIN upds}
   /\ pure' = FALSE
+  \* what the snapshot names is (re-)added whatever was reported before
+  /\ remC' = (IF prune /\ MayForget(t) THEN {} ELSE remC) \ Chs(g2)
+  /\ remN' = (IF prune /\ MayForget(t) THEN {} ELSE remN) \ Nds(g2)
   /\ UNCHANGED <<lookup, amode, caps, tombN, eff, pend>>
 
 -----------------------------------------------------------------------------
@@ -356,6 +410,9 @@ NeverOlder ==
 
 \* nodes exist exactly as long as they have a channel
 NodeCleanup == Nds(G) = UNION {Ends(G, c) : c \in Chs(G)}
+
+\* what was reported permanently failed stays out of the graph while the report is remembered
+FailedStayOut == remC \cap Chs(G) = {} /\ remN \cap Nds(G) = {}
 
 \* Confluence: as long as nothing was removed, the graph is a function of the SET of valid
 \* messages delivered (each after what it refers to), whatever the order and duplication --
